@@ -2,6 +2,9 @@ import FeatModel.Lemmas.C03Merge
 import FeatModel.Lemmas.C03Ops
 import FeatModel.Lemmas.C03Bridge
 import FeatModel.Lemmas.C03Bcsr
+import FeatModel.Lemmas.C03Diag
+import FeatModel.Lemmas.C03Arg
+import FeatModel.Lemmas.C03Sqrt
 /-!
 # C03 — matrix algebra operations equal their dense definitions (property theorems)
 
@@ -603,6 +606,116 @@ theorem C03.matrix_extreme_elements {α : Type} [Field α] [LinearOrder α] [IsS
   refine ⟨fun h => maxElemK_spec _ m h, fun h => minElemK_spec _ m h, fun h => ?_, fun h => ?_⟩
   · simpa only [IsExt, absK_eq_abs] using maxAbsElemK_spec _ m h
   · simpa only [IsExt, absK_eq_abs] using minAbsElemK_spec _ m h
+
+/-! ## extract_diag at full strength; layout validity gives `SortedCols` -/
+
+/-- the `SortedCols` hypothesis of the theorems above follows, for every row, from the decidable layout validity of C02
+    (`Csr.wf && Csr.sortedRows`), which C02 proves for the result of every constructor / conversion / transposition /
+    permutation path; the hypothesis cannot be dropped from the value formulas (a duplicated column in `B_l` is merged
+    only once), while `merge_incomplete_reported`, `merge_pattern_preserved` and `merge_allow_never_aborts` need none -/
+theorem C03.sortedCols_of_valid {α : Type} [Zero α] (A : Csr α) (h1 : A.wf = true) (h2 : A.sortedRows = true) (i : Nat) :
+    SortedCols (csrRow A i) :=
+  sortedCols_of_sortedRows A h1 h2 i
+
+/-- **`extract_diag` / `extract_diag_indices` (CSR) = the dense diagonal**, for every valid pattern (rows with only
+    upper or only lower entries, empty rows, …): `diag_i = ⟦A⟧_ii` (0 when `(i,i)` is not stored), the index is
+    `used_elements()` exactly when `(i,i)` is not in the pattern and otherwise the storage position of `(i,i)` -/
+theorem C03.extractDiag_dense {α : Type} [CommRing α] (A : Csr α) (hA : A.wf = true) (hS : A.sortedRows = true)
+    (hsq : A.rows = A.cols) :
+    ∃ vals idx, csrExtractDiag A = .ok (vals, idx) ∧ ∀ i, i < A.rows →
+      vals[i]? = some (A.entry i i) ∧
+      ∃ k, idx[i]? = some k ∧ (k = A.usedElements ↔ i ∉ rowCols (csrRow A i)) ∧
+        (i ∈ rowCols (csrRow A i) → A.rowBegin i ≤ k ∧ k < A.rowEnd i ∧ A.colInd.getD k 0 = i) := by
+  refine ⟨(csrDiagIndices A).map (fun k => if k != A.usedElements then A.val.getD k 0 else 0), csrDiagIndices A,
+    by simp [csrExtractDiag, hsq], fun i hi => ?_⟩
+  have hw := (Csr.wf_iff A).mp hA
+  have hrow := csr_diag_row hw (sortedCols_of_sortedRows A hA hS i) hi
+  simp only [csrDiagIndices, List.getElem?_map, List.getElem?_range hi, Option.map_some]
+  rcases hrow with ⟨hn, hk, he⟩ | ⟨hm, h1, h2, hne, hc, hv⟩
+  · refine ⟨by rw [hk, he]; simp, _, rfl, by rw [hk]; simp [hn], fun hm => absurd hm hn⟩
+  · refine ⟨by rw [if_pos (by simpa using hne), hv], _, rfl, ?_, fun _ => ⟨h1, h2, hc⟩⟩
+    constructor
+    · intro e; exact absurd e hne
+    · intro e; exact absurd hm e
+
+/-- **`extract_diag` (BCSR, square blocks) = the dense diagonal** of the scalar matrix: entry `row·n + i` of the result
+    is `⟦A⟧_(row·n+i),(row·n+i)` (`Bcsr.entry`, the dense meaning of C01), 0 when the diagonal block is not stored -/
+theorem C03.extractDiag_dense_bcsr {α : Type} [CommRing α] (A : Bcsr α) (hA : A.wf = true)
+    (hS : ∀ row, SortedCols (bcsrRow A row)) (hsq : A.rows = A.cols) (hb : A.bh = A.bw) (hpos : 0 < A.bh) :
+    bcsrExtractDiag A = .ok ((List.range A.rows).flatMap fun row => (List.range A.bh).map fun i =>
+      A.entry (row * A.bh + i) (row * A.bh + i)) := by
+  have hw := (Bcsr.wf_iff A).mp hA
+  rw [(C03.extractDiag_bcsr A).2 hsq hb]
+  congr 1
+  unfold bcsrDiagIndices
+  rw [List.flatMap_map]
+  apply flatMap_congr_mem
+  intro row hrow
+  apply List.map_congr_left
+  intro i hi
+  exact bcsr_diag_row hw hb hpos (hS row) (List.mem_range.mp hrow) (List.mem_range.mp hi) _ rfl
+
+/-! ## extreme elements: first-occurrence tie-breaking of the index kernels; BCSR value-array members; square roots -/
+
+/-- `Arch::MaxIndex / MinIndex / MaxAbsIndex / MinAbsIndex` on the value array of a matrix with at least one stored
+    value return the FIRST position of the extremal (absolute) value: every earlier value is strictly worse, every value
+    is at most as good.  (`max_element()` etc. then fetch the value at that position: `C03.matrix_extreme_elements`.) -/
+theorem C03.extreme_first_occurrence {α : Type} [Field α] [LinearOrder α] [IsStrictOrderedRing α] (x : List α)
+    (hne : x ≠ []) :
+    (maxIndexK x < x.length ∧ (∀ q, q < maxIndexK x → x.getD q 0 < x.getD (maxIndexK x) 0) ∧
+      ∀ q, q < x.length → x.getD q 0 ≤ x.getD (maxIndexK x) 0) ∧
+    (minIndexK x < x.length ∧ (∀ q, q < minIndexK x → x.getD (minIndexK x) 0 < x.getD q 0) ∧
+      ∀ q, q < x.length → x.getD (minIndexK x) 0 ≤ x.getD q 0) ∧
+    (maxAbsIndexK x < x.length ∧ (∀ q, q < maxAbsIndexK x → |x.getD q 0| < |x.getD (maxAbsIndexK x) 0|) ∧
+      ∀ q, q < x.length → |x.getD q 0| ≤ |x.getD (maxAbsIndexK x) 0|) ∧
+    (minAbsIndexK x < x.length ∧ (∀ q, q < minAbsIndexK x → |x.getD (minAbsIndexK x) 0| < |x.getD q 0|) ∧
+      ∀ q, q < x.length → |x.getD (minAbsIndexK x) 0| ≤ |x.getD q 0|) :=
+  ⟨maxIndexK_first x hne, minIndexK_first x hne, maxAbsIndexK_first x hne, minAbsIndexK_first x hne⟩
+
+/-- BCSR `axpy` / `scale` act on the pod value array with the same kernels: entry `p` becomes `this_p + α·x_p` resp.
+    `x_p·α`; different block-row/column/block counts are reported -/
+theorem C03.matrix_axpy_scale_bcsr {α : Type} [CommRing α] (T X : Bcsr α) (alpha : α) (ali : Bool)
+    (hal : ali = true → X = T) (hn : X.val.size = T.val.size) :
+    (bSameShape X T = false → bcsrAxpy T X alpha ali = .error .dims ∧ bcsrScale T X alpha ali = .error .dims) ∧
+    (bSameShape X T = true →
+      (∃ l, bcsrAxpy T X alpha ali = .ok l ∧
+        ∀ p, p < T.val.size → l.getD p 0 = T.val.toList.getD p 0 + alpha * X.val.toList.getD p 0) ∧
+      (∃ l, bcsrScale T X alpha ali = .ok l ∧ ∀ p, p < T.val.size → l.getD p 0 = X.val.toList.getD p 0 * alpha)) := by
+  refine ⟨fun hs => by simp [bcsrAxpy, bcsrScale, hs], fun hs => ⟨?_, ?_⟩⟩
+  · refine ⟨axpyK ali alpha T.val.toList X.val.toList, by simp [bcsrAxpy, hs], fun p hp => ?_⟩
+    exact axpyK_getD ali alpha _ _ (fun h => by rw [hal h]) (by simp [hn]) p (by simpa using hp)
+  · refine ⟨scaleK ali alpha T.val.toList X.val.toList, by simp [bcsrScale, hs], fun p hp => ?_⟩
+    exact scaleK_getD ali alpha _ _ (fun h => by rw [hal h]) (by simp [hn]) p (by simpa using hp)
+
+/-- BCSR `norm_frobenius`² = the sum of the squares of all stored scalars; the extreme elements of a BCSR matrix are
+    those of its pod value array (`C03.matrix_extreme_elements`, `C03.extreme_first_occurrence` apply verbatim) -/
+theorem C03.frobenius_sq_bcsr {α : Type} [CommRing α] (A : Bcsr α) :
+    bcsrFrobSq A = (A.val.toList.map fun v => v * v).sum := by
+  simp [bcsrFrobSq, sumSq, sumL_eq_sum]
+
+/-- the square root used by harness and driver (`q_sqrt` / `Proto.qsqrt`) is the true root rounded down to the grid
+    `1/(den·2^40)`: `0 ≤ r`, `r² ≤ x < (r + 2^-40)²` for every `x ≥ 0` -/
+theorem C03.qsqrt_floor (x : Rat) (hx : 0 ≤ x) :
+    0 ≤ FeatModel.Proto.qsqrt x ∧ FeatModel.Proto.qsqrt x * FeatModel.Proto.qsqrt x ≤ x ∧
+      x < (FeatModel.Proto.qsqrt x + 1 / 2 ^ 40) * (FeatModel.Proto.qsqrt x + 1 / 2 ^ 40) :=
+  FeatModel.LA.MatAlg.qsqrt_floor x hx
+
+/-- hence `norm_frobenius` (and every `row_norm2` entry, the same construction on one row) as printed by the driver
+    brackets the true norm: `r² ≤ Σ v² < (r + 2^-40)²` -/
+theorem C03.norm_frobenius_floor (A : Csr Rat) :
+    FeatModel.Proto.qsqrt (csrFrobSq A) * FeatModel.Proto.qsqrt (csrFrobSq A) ≤ (A.val.toList.map fun v => v * v).sum ∧
+    (A.val.toList.map fun v => v * v).sum <
+      (FeatModel.Proto.qsqrt (csrFrobSq A) + 1 / 2 ^ 40) * (FeatModel.Proto.qsqrt (csrFrobSq A) + 1 / 2 ^ 40) := by
+  have he := C03.frobenius_sq A
+  have h0 : 0 ≤ csrFrobSq A := by
+    rw [he]
+    apply List.sum_nonneg
+    intro v hv
+    obtain ⟨u, _, rfl⟩ := List.mem_map.mp hv
+    exact mul_self_nonneg u
+  have := FeatModel.LA.MatAlg.qsqrt_floor (csrFrobSq A) h0
+  rw [← he]
+  exact ⟨this.2.1, this.2.2⟩
 
 /-! ## the hypotheses are satisfiable by non-trivial values -/
 
